@@ -1,5 +1,60 @@
-(* C09 placeholder; replaced below *)
+(* C09 — passwords never cross the wire in clear when encryption is negotiated.  Property theorems only.
+   Model: Login/Model.v ([wire_of]: every packet login writes, through the tx model of C01; [decide]: how it ends).
+   RSA-OAEP is a parameter [enc : key -> plaintext -> call number -> ciphertext]; its strength and crypto/rand are
+   outside the model.  The harness owns the private key: it decrypts what was sent and compares the rest of the bytes
+   with the model run on the BLINDED configuration (every secret replaced by zeros of the same length). *)
 From Coq Require Import ZArith List Bool.
-From V Require Import Login.Model Login.Spec.
-Theorem C09_placeholder : True. Proof. exact I. Qed.
-Print Assumptions C09_placeholder.
+Import ListNotations.
+From V Require Import Base.Tree Base.Bytes Gen.GenLogin Pkg.Fmts Pkg.LoginRec C01.Model C01.Spec Rx.Model Login.Model Login.Spec Login.Secrecy.
+Open Scope Z_scope.
+
+(* Non-interference.  Two encrypted logins whose configurations agree on everything but the CONTENTS of the account
+   password and the remote-server passwords (same lengths), facing the same replies, and whose ciphertexts coincide, write
+   exactly the same bytes: no byte written depends on a secret except through enc.  The k-th plaintext handed to enc is
+   nonce ++ secret_at c symkey k: the password, the password of every server, the session key. *)
+Theorem C09_noninterference : forall keycap enc1 enc2 sym1 sym2 c1 c2 order rounds,
+  with_encryption (lc_encrypt c1) = true -> same_public c1 c2 ->
+  (forall pem nonce k, enc1 pem (nonce ++ secret_at c1 sym1 k) k = enc2 pem (nonce ++ secret_at c2 sym2 k) k) ->
+  wire_of enc1 keycap sym1 c1 order (decide keycap c1 rounds) = wire_of enc2 keycap sym2 c2 order (decide keycap c2 rounds).
+Proof. exact wire_public. Qed.
+
+(* How the login ends - success, which class of error (hence every error text, which interpolates only server data),
+   capabilities, packet size - depends on the secrets through their lengths only. *)
+Theorem C09_outcome_independent_of_secrets : forall keycap c rounds, decide keycap c rounds = decide keycap (blind c) rounds.
+Proof. exact decide_blind. Qed.
+
+(* The complete second message: password, remote passwords and session key travel as enc (nonce ++ secret) only. *)
+Theorem C09_second_message_shape : forall keycap enc sym c pem nonce pkgs,
+  second_message enc keycap sym c pem nonce = (pkgs, true) ->
+  exists rs, remote_cts enc keycap pem nonce 1 (servers c) = Some rs /\
+  pkgs = [msg_pkg g_msg_logpwd3; paramfmt_pkg [fmt_longbinary]; longbinary_param (enc pem (nonce ++ secret_at c sym O) O);
+          msg_pkg g_msg_rempwd3; paramfmt_pkg (concat (map (fun _ => [fmt_varchar; fmt_longbinary]) rs));
+          tok_params :: concat (map (fun r => bytes_of_le 1 (zlen (fst r)) ++ fst r ++ bytes_of_le 4 (zlen (snd r)) ++ snd r) rs);
+          msg_pkg g_msg_symkey; paramfmt_pkg [fmt_longbinary];
+          longbinary_param (enc pem (nonce ++ secret_at c sym (S (length (servers c)))) (S (length (servers c))))].
+Proof. exact second_message_plaintexts. Qed.
+
+(* The login record of every encrypted mode, decoded by the independent TDS 5.0 layout decoder: the password slot and
+   the remote-password slot are empty. *)
+Theorem C09_record_slots_empty : forall c, enc_mode (lc_encrypt c) = true -> fields_fit c ->
+  exists bs f, enc_login c = Some bs /\ parse_login_record bs = Some f /\ lf_password f = [] /\ lf_rempw f = [].
+Proof. exact record_slots_empty. Qed.
+
+(* ... and it is what the first message carries: well-formed packets (C01) whose payload is record ++ capabilities *)
+Theorem C09_first_message : forall c order, fields_fit c ->
+  exists rec w1 st', enc_login c = Some rec /\
+    send_message 512 0 g_buf_login (pkgs_chunks [rec; caps_pkg order]) tx0 = Some (w1, st') /\
+    tx_ok 512 g_buf_login 0 0 (rec ++ caps_pkg order) w1 = true.
+Proof. exact first_message_wire. Qed.
+
+(* Control (so that the oracle cannot pass vacuously): without encryption the password IS in its slot. *)
+Theorem C09_control_plain_password : forall c, enc_mode (lc_encrypt c) = false -> fields_fit c ->
+  exists bs f, enc_login c = Some bs /\ parse_login_record bs = Some f /\ lf_password f = lc_password c.
+Proof. exact record_plain_password. Qed.
+
+Print Assumptions C09_noninterference.
+Print Assumptions C09_outcome_independent_of_secrets.
+Print Assumptions C09_second_message_shape.
+Print Assumptions C09_record_slots_empty.
+Print Assumptions C09_first_message.
+Print Assumptions C09_control_plain_password.
